@@ -169,6 +169,41 @@ theorem Sched.settle_refines (fuel : Nat) (s : Sched) : ∃ bs : List Act, (s.se
       refine ⟨a :: bs, ?_⟩
       simp only [List.foldl_cons, ← Sched.tick_refines s s' ir a ht, hbs]
 
+/-- an enabled nested start *is* the plain `start` of the same run -/
+theorem World.nstart_is_start (w : World) (pi pr i r : Nat) (p : World × List (Nat × Nat))
+    (h : w.nstart pi pr i r = some p) : w.step (.on i (.start r)) = some p := by
+  simp only [World.nstart] at h
+  cases hg : w.get pi with
+  | none => simp [hg] at h
+  | some q =>
+    simp only [hg] at h
+    by_cases hm : pr ∈ q.holding
+    · simpa [hm] using h
+    · simp [hm] at h
+
+/-- a nested start needs a caller: the starting run is inside its limit -/
+theorem World.nstart_caller (w : World) (pi pr i r : Nat) (p : World × List (Nat × Nat))
+    (h : w.nstart pi pr i r = some p) : ∃ q, w.get pi = some q ∧ pr ∈ q.holding := by
+  simp only [World.nstart] at h
+  cases hg : w.get pi with
+  | none => simp [hg] at h
+  | some q =>
+    simp only [hg] at h
+    by_cases hm : pr ∈ q.holding
+    · exact ⟨q, rfl, hm⟩
+    · simp [hm] at h
+
+theorem World.nstepD_refines (w : World) (a : NAct) : ∃ bs : List Act, w.nstepD a = bs.foldl World.stepD w := by
+  cases a with
+  | act a => exact ⟨[a], rfl⟩
+  | nstart pi pr i r =>
+    simp only [World.nstepD]
+    cases hn : w.nstart pi pr i r with
+    | none => exact ⟨[], rfl⟩
+    | some p =>
+      obtain ⟨w', woke⟩ := p
+      exact ⟨[.on i (.start r)], by simp [World.stepD, World.nstart_is_start w pi pr i r _ hn]⟩
+
 theorem Sched.op_refines (s : Sched) (o : SOp) : ∃ bs : List Act, (s.op o).w = bs.foldl World.stepD s.w := by
   cases o with
   | ext a =>
@@ -184,5 +219,19 @@ theorem Sched.op_refines (s : Sched) (o : SOp) : ∃ bs : List Act, (s.op o).w =
       obtain ⟨s', ir, a⟩ := p
       exact ⟨[a], by simp [Sched.tick_refines s s' ir a h]⟩
   | settle fuel => exact Sched.settle_refines fuel s
+  | nstart pi pr i r =>
+    simp only [Sched.op]
+    cases h : s.nstart pi pr i r with
+    | none => exact ⟨[], rfl⟩
+    | some s' =>
+      refine ⟨[.on i (.start r)], ?_⟩
+      simp only [Sched.nstart] at h
+      cases hn : s.w.nstart pi pr i r with
+      | none => simp [hn] at h
+      | some p =>
+        obtain ⟨w', woke⟩ := p
+        simp only [hn, Option.some.injEq] at h
+        subst h
+        simp [World.stepD, World.nstart_is_start s.w pi pr i r _ hn]
 
 end RunLimit
